@@ -478,7 +478,8 @@ def rewrite_derive(attr_text):
 # directive parsing
 
 SECTION_KW = ("ret", "requires", "ensures", "decreases", "recommends", "entry", "loop", "before", "after",
-              "subst", "sigsubst", "attr", "name", "opens", "noprove", "unwind", "mono", "selftype", "ord", "header", "nostructural", "deadtail")
+              "subst", "sigsubst", "attr", "name", "opens", "noprove", "unwind", "mono", "selftype", "ord", "header", "nostructural", "deadtail",
+              "closure", "capture", "cret", "dropclosure")
 
 
 class FnDirective:
@@ -695,6 +696,20 @@ def apply_mono(text, d, em, is_sig=False):
 def splice_body(body, d, em, target):
     """body: text from `{` to matching `}` inclusive."""
     body = apply_mono(body, d, em)
+    for (_, chead) in d.get("dropclosure"):
+        # E21 (second half): in the enclosing function the closure expression (lifted to its own function by
+        # `closure`) is replaced by `()`; the statements that only build or pass it are then removed by `subst`
+        chead = chead.strip().strip('"')
+        if body.count(chead) != 1:
+            raise ExtractError("dropclosure head %r matches %d times in %s" % (chead, body.count(chead), target))
+        mb = mask_source(body)
+        cpos = body.index(chead)
+        cob = find_at_depth0(mb, cpos + len(chead), len(mb), "{")
+        if cob < 0 or mb[cpos + len(chead):cob].strip():
+            raise ExtractError("dropclosure body not found after %r in %s" % (chead, target))
+        cend = match_brace(mb, cob)
+        body = body[:cpos] + "()" + body[cend + 1:]
+        em.rules.add("E21")
     for (_, anchor) in d.get("deadtail"):
         # E17: drop the tail of the body starting at the anchored line; it is replaced by `unreached()`, which Verus
         # must prove unreachable under the function's requires (used for the non-ISO branches that call icu_calendar)
@@ -815,6 +830,62 @@ def emit_fn(em, d, tmpl_path):
     src, masked, it = locate(path, spec)
     if it.open < 0:
         raise ExtractError("function has no body: " + d.target)
+    clos = d.get("closure")
+    if clos:
+        # E21 (closure lifting): the closure whose parameter list is the quoted text, inside the located function, becomes
+        # a named function: its parameters first, then every captured variable it mutates as `&mut` parameter (listed
+        # by `capture name: Type`), its body verbatim with each captured name `x` rewritten to `(*x)`.
+        chead = clos[0][1].strip().strip('"')
+        fbody = src[it.open:it.end + 1]
+        if fbody.count(chead) != 1:
+            raise ExtractError("closure head %r matches %d times in %s" % (chead, fbody.count(chead), d.target))
+        cpos = it.open + fbody.index(chead)
+        cob = find_at_depth0(masked, cpos + len(chead), it.end, "{")
+        if cob < 0 or masked[cpos + len(chead):cob].strip():
+            raise ExtractError("closure body not found after %r in %s" % (chead, d.target))
+        cend = match_brace(masked, cob)
+        params = chead.strip("|").strip()
+        for (a, b) in d.get("sigsubst"):
+            if a not in params:
+                raise ExtractError("sigsubst anchor lost in %s: %r" % (d.target, a))
+            params = params.replace(a, b)
+        caps = [t.strip().strip('"') for (_, t) in d.get("capture")]
+        cret = (d.get("cret") or [(None, "()")])[0][1].strip().strip('"')
+        ret = (d.get("ret") or [(None, "r")])[0][1].strip() or "r"
+        cname = (d.get("name") or [(None, it.name + "_closure")])[0][1].strip()
+        plist = ", ".join([params] + ["%s: &mut %s" % tuple(x.strip() for x in c.split(":", 1)) for c in caps])
+        lts = sorted(set(x for x in re.findall(r"'([a-z][a-z0-9_]*)\b(?!')", plist + " " + cret) if x not in ("static",)))
+        head = "pub fn %s%s(%s) -> (%s: %s)" % (cname, ("<" + ", ".join("'" + x for x in lts) + ">") if lts else "", plist, ret, cret)
+        cbody = src[cob:cend + 1]
+        mcb = mask_source(cbody)
+        for c in caps:
+            cn = c.split(":", 1)[0].strip()
+            out, last = [], 0
+            for m in re.finditer(r"(?<![A-Za-z0-9_.])%s(?![A-Za-z0-9_])" % re.escape(cn), mcb):
+                out.append(cbody[last:m.start()])
+                out.append("(*%s)" % cn)
+                last = m.end()
+            out.append(cbody[last:])
+            cbody = "".join(out)
+            mcb = mask_source(cbody)
+        ctext, nclauses = contract_text(d)
+        origin = "%s:%d" % (path, lineno(src, cpos))
+        gen_from = em.gen_line()
+        for (_, a) in d.get("attr"):
+            em.emit(a, origin)
+        d2 = FnDirective("fn", d.target, d.tmpl_line)
+        d2.sections = [x for x in d.sections if x[0] not in ("sigsubst",)]
+        body = splice_body(cbody, d2, em, d.target)
+        em.emit(head, origin)
+        if ctext:
+            em.emit(ctext, origin)
+        body_line0 = lineno(src, cob)
+        for k, ln in enumerate(body.split("\n")):
+            em.lines.append((ln, "%s:~%d" % (path, body_line0 + k)))
+        em.rules.add("E21")
+        em.fns.append({"name": cname, "target": d.target + " :: closure " + chead, "kind": kind, "src": origin, "gen_from": gen_from, "gen_to": em.gen_line() - 1,
+                       "clauses": nclauses, "src_lines": [lineno(src, cpos), lineno(src, cend)]})
+        return
     head = build_signature(src, masked, it, d, em)
     ctext, nclauses = contract_text(d)
     name = (d.get("name") or [(None, it.name)])[0][1].strip()
